@@ -16,8 +16,9 @@ THEOREMS = ["C09_flatten", "C09_flatten_closed_form", "C09_below", "C09_below_pe
             "C09_content_ok_bijective", "C09_model_meets_spec_swizzle",
             "C09_flatten_closed_form_fiber", "C09_flatten_wf", "C09_model_meets_spec_flatten_root", "C09_below_wf", "C09_descents_compose", "C09_unflatten_wf",
             "C09_swap_wf", "C09_swap_post", "C09_unflatten_flatten_fiber", "C09_split_flatten_fiber", "C09_sq_sums", "C09_merge_groups", "C09_merge_to_fibertree", "C09_merge_level",
-            "C09_model_meets_spec_proved_ops",
-            "C09_order", "C09_oracle_sound", "C09_model_meets_spec_partial"]
+            "C09_merge_levels", "C09_merge_point_maps", "C09_below_sq", "C09_content_ok_of_sq",
+            "C09_model_meets_spec", "C09_model_meets_spec_region0",
+            "C09_order", "C09_oracle_sound", "C09_observation_pipeline"]
 COQ_IMPORTS = "From FT Require Import Model.Base Model.Obs Model.C09Transform Model.C09Check."
 CHECK_VO = ["Model/C09Check.v"]
 CHECKER = "c09_checker"
@@ -48,9 +49,13 @@ ASSUMPTIONS = ["operand coordinates are Python ints inside the authoritative sha
                "mergeRanks is exercised with the default merge_fn (sum) and leaf default 0",
                "Rank.getFibers() of the operand lists the fibers of its level (C02): the all-empty guards of "
                "Tensor.swapRanks/unflattenRanks are modelled on the tree level"]
-EXPLANATION = ("theorems: content(flatten)=map combine(content), unflatten inverts it, *Below descent maps under a "
-               "prefix, swizzle content is a permutation image and the inverse restores, swap = transposition; "
-               "oracle content_ok/out_wf evaluated on the implementation's result")
+EXPLANATION = ("theorems: C09_model_meets_spec - for every well-formed case (all 8 operations, every depth, number of "
+               "levels and style) the faithful model's observation satisfies the oracle; clause theorems: swizzle = sort of "
+               "the permuted points (+ inverse, + well-formedness), swap = transposition at any depth, flatten tuple/pair/"
+               "linear content and order, unflatten inverts flatten, flatten-absolute of split restores, merge absolute/"
+               "relative adds colliding points up (grouping loop, _mergeToFibertree union recursion, any levels), the "
+               "Below descent keeps content relations and well-formedness; oracle content_ok/out_wf evaluated on the "
+               "implementation's result")
 
 STYLES = {"tuple": 0, "pair": 1, "linear": 2, "absolute": 3, "relative": 4}
 
